@@ -195,6 +195,7 @@ class State:
         self.decisions = []
         self.notes = []             # havocs etc.
         self.extra = {}             # model-private immutable data (copied shallowly)
+        self.stops = []             # join points of enclosing merge attempts: (fid, bb, depth, pc_len)
 
     def clone(self):
         s = State()
@@ -210,6 +211,7 @@ class State:
         s.decisions = list(self.decisions)
         s.notes = list(self.notes)
         s.extra = dict(self.extra)
+        s.stops = list(self.stops)
         return s
 
     def fresh(self, hint='h'):
@@ -229,6 +231,10 @@ class Event:
 
     def __repr__(self):
         return '%s:%s' % (self.kind, self.name)
+
+
+class NoMerge(Exception):
+    pass
 
 
 class Fork(Exception):
@@ -262,6 +268,10 @@ class Executor:
         self.strict_unknown_calls = False
         self.consts_seen = {}
         self._divmod = {}
+        self._ipdom = {}
+        self.fork_sites = {}
+        self._live = {}
+        self._hint = None
 
     # ---------------------------------------------------------- definition index
 
@@ -603,6 +613,8 @@ class Executor:
     def cell_root(self, st, cell):
         v = st.cells.get(cell)
         if v is None:
+            if isinstance(cell, tuple) and cell and cell[0] == 'const':
+                return self.const_cells.get(cell)
             if isinstance(cell, str):
                 return Tree({}, cell, st.extra.get(('cellty', cell)))
             return None
@@ -789,8 +801,10 @@ class Executor:
         # promoted or named constant
         key = t
         if '::promoted[' in t or t.startswith('promoted['):
-            if t.startswith('promoted['):
-                key = frame.fn.name + '::' + t
+            # promoteds belong to the function being executed (the dump prints its polymorphic path)
+            key = frame.fn.name + '::' + t[t.rfind('promoted['):]
+            if key not in self.fns and t in self.fns:
+                key = t
             return self.eval_const_body(st, key)
         if t.startswith('{') or t.startswith('<'):
             if t.startswith('{alloc') or t.startswith('{0x') or t.startswith('{transmute'):
@@ -809,7 +823,8 @@ class Executor:
             return n
         last = n.split('::')[-1]
         cands = [k for k, v in self.fns.items() if v[0].kind in ('const', 'static') and
-                 (k == n or k.endswith('::' + n) or (k.split('::')[-1] == last and '::' not in n))]
+                 (k == n or k.endswith('::' + n) or n.endswith('::' + k) or
+                  (k.split('::')[-1] == last and '::' not in n))]
         if len(cands) == 1:
             return cands[0]
         if len(cands) > 1:
@@ -1095,17 +1110,8 @@ class Executor:
         stack = [st0]
         while stack:
             st = stack.pop()
-            try:
-                forks = self.run_path(st)
-            except Inconclusive as e:
-                st.status = 'abort'
-                st.info = str(e)
-                fr = st.frames[-1] if st.frames else None
-                if fr is not None:
-                    st.info += ' [in %s bb%d]' % (fr.fn.name[-80:], fr.bb)
-                forks = None
+            forks = self.run_one(st)
             if forks:
-                self.stats['forks'] += len(forks) - 1
                 stack.extend(reversed(forks))
                 continue
             self.stats['paths'] += 1
@@ -1114,9 +1120,377 @@ class Executor:
                 raise Inconclusive('path budget exhausted (%d)' % self.cfg['max_paths'])
         return out
 
+    def run_one(self, st):
+        """run_path + error capture + diamond merging of the forks it returns"""
+        self._hint = None
+        try:
+            forks = self.run_path(st)
+        except Inconclusive as e:
+            st.status = 'abort'
+            st.info = str(e)
+            fr = st.frames[-1] if st.frames else None
+            if fr is not None:
+                st.info += ' [in %s bb%d]' % (fr.fn.name[-80:], fr.bb)
+            return None
+        if forks:
+            self.stats['forks'] += len(forks) - 1
+            hint = self._hint
+            if hint is not None and len(forks) > 1 and self.cfg.get('merge', True):
+                forks = self.merge(forks, hint)
+        return forks
+
+    def merge(self, forks, hint):
+        """run the alternatives of a fork up to the immediate post-dominator of the forking block and
+        collapse those that arrive there in identical states (differing only in path condition)"""
+        for f in forks:
+            f.stops.append(hint)
+        stack = list(reversed(forks))
+        joined = []
+        finished = []
+        n = 0
+        budget = self.cfg.get('merge_budget', 48)
+        while stack:
+            st = stack.pop()
+            n += 1
+            if n > budget:
+                finished.append(st)
+                continue
+            fk = self.run_one(st)
+            if fk:
+                stack.extend(reversed(fk))
+                continue
+            if st.status == 'joined' and st.stops and st.stops[-1] == hint:
+                st.stops.pop()
+                st.status = 'running'
+                joined.append(st)
+            else:
+                if st.status == 'escaped':
+                    st.status = 'running'
+                finished.append(st)
+        for st in finished:
+            if hint in st.stops:
+                st.stops.remove(hint)
+        L0 = hint[3]
+        out = []
+        reps = []
+        for st in joined:
+            cond = z3.And(*st.pc[L0:]) if len(st.pc) > L0 else z3.BoolVal(True)
+            for rep in reps:
+                diffs = self.same_state(rep[0], st)
+                if diffs is None:
+                    continue
+                try:
+                    newcells = {}
+                    for k in diffs:
+                        newcells[k] = self.vmerge(rep[0].cells.get(k), st.cells.get(k), cond)
+                except NoMerge:
+                    continue
+                r0 = rep[0]
+                r0.cells.update(newcells)
+                rep[1].append(cond)
+                r0.nfid = max(r0.nfid, st.nfid)
+                r0.nfresh = max(r0.nfresh, st.nfresh)
+                for fr, fx in zip(r0.frames, st.frames):
+                    for k, v in fx.visits.items():
+                        if v > fr.visits.get(k, 0):
+                            fr.visits[k] = v
+                self.stats['merged'] = self.stats.get('merged', 0) + 1
+                break
+            else:
+                reps.append((st, [cond]))
+        for st, conds in reps:
+            if len(conds) > 1:
+                c = z3.simplify(z3.Or(*conds))
+                st.pc = st.pc[:L0] + ([] if z3.is_true(c) else [c])
+            out.append(st)
+        return out + finished
+
+    def vmerge(self, a, b, cond_b):
+        """value equal to b under cond_b and to a otherwise; only scalar leaves may differ"""
+        if a is b:
+            return a
+        if a is None or b is None or type(a) is not type(b):
+            raise NoMerge()
+        if isinstance(a, Sc):
+            if a.ty != b.ty:
+                raise NoMerge()
+            if a.t.eq(b.t):
+                return a
+            return Sc(z3.If(cond_b, b.t, a.t), a.ty)
+        if isinstance(a, Tree):
+            if a.origin != b.origin or a.f.keys() != b.f.keys():
+                raise NoMerge()
+            f = {}
+            same = True
+            for k in a.f:
+                m = self.vmerge(a.f[k], b.f[k], cond_b)
+                if m is not a.f[k]:
+                    same = False
+                f[k] = m
+            return a if same else Tree(f, a.origin, a.ty, a.meta)
+        if self.veq(a, b):
+            return a
+        raise NoMerge()
+
+    def same_state(self, a, b):
+        """None if the states cannot be merged; else the list of cell keys whose values differ"""
+        if len(a.frames) != len(b.frames) or len(a.trace) != len(b.trace):
+            return None
+        for fa, fb in zip(a.frames, b.frames):
+            if fa.fn is not fb.fn or fa.fid != fb.fid or fa.bb != fb.bb or fa.idx != fb.idx \
+                    or fa.on_return is not fb.on_return or fa.dest != fb.dest or fa.ret_bb != fb.ret_bb:
+                return None
+        if a.stops != b.stops:
+            return None
+        for ea, eb in zip(a.trace, b.trace):
+            if ea is eb:
+                continue
+            if ea.kind != eb.kind or ea.name != eb.name or ea.out != eb.out or not self.veq(ea.args, eb.args):
+                return None
+        ka = a.cells
+        kb = b.cells
+        live = set(f.fid for f in a.frames)
+        top = a.frames[-1]
+        top_live = self.live_in(top.fn, top.bb) if top.idx == 0 else None
+        diffs = []
+        for k in set(ka) | set(kb):
+            va = ka.get(k)
+            vb = kb.get(k)
+            if va is vb:
+                continue
+            if isinstance(k, tuple) and len(k) == 2 and isinstance(k[1], int):
+                if k[0] not in live:
+                    continue        # local of a frame that has returned
+                if k[0] == top.fid and top_live is not None and k[1] not in top_live:
+                    continue        # dead local of the joining frame
+            if va is None or vb is None:
+                return None
+            if not self.veq(va, vb):
+                diffs.append(k)
+        for k in set(a.extra) | set(b.extra):
+            if a.extra.get(k) != b.extra.get(k):
+                return None
+        return diffs
+
+    def veq(self, a, b):
+        if a is b:
+            return True
+        if type(a) is not type(b):
+            return False
+        if isinstance(a, Sc):
+            return a.ty == b.ty and a.t.eq(b.t)
+        if isinstance(a, Ptr):
+            return a.cell == b.cell and a.path == b.path
+        if isinstance(a, Tree):
+            if a.origin != b.origin or a.f.keys() != b.f.keys():
+                return False
+            return all(self.veq(a.f[k], b.f[k]) for k in a.f)
+        if isinstance(a, Obj):
+            return a.kind == b.kind and self.veq(a.data, b.data)
+        if isinstance(a, (tuple, list)):
+            return len(a) == len(b) and all(self.veq(x, y) for x, y in zip(a, b))
+        if isinstance(a, Event):
+            return a.kind == b.kind and a.name == b.name and self.veq(a.args, b.args)
+        try:
+            return a == b
+        except Exception:
+            return False
+
+    # ---------------------------------------------------------- liveness (for state comparison at joins)
+
+    def live_in(self, fn, bb):
+        tab = self._live.get(fn.name)
+        if tab is None:
+            tab = self._compute_liveness(fn)
+            self._live[fn.name] = tab
+        return tab.get(bb)
+
+    def _compute_liveness(self, fn):
+        parse_body(fn)
+        addr_taken = set()
+
+        def place_uses(pl, out):
+            for p in pl.proj:
+                if p[0] == 'index':
+                    out.add(p[1])
+
+        def op_uses(op, out):
+            if op is not None and op.kind != 'const':
+                out.add(op.place.local)
+                place_uses(op.place, out)
+
+        def rv_uses(rv, out):
+            k = rv.kind
+            if k == 'use':
+                op_uses(rv.a, out)
+            elif k in ('ref', 'rawref'):
+                out.add(rv.a.local)
+                place_uses(rv.a, out)
+                if not any(p[0] == 'deref' for p in rv.a.proj):
+                    addr_taken.add(rv.a.local)
+            elif k == 'binop':
+                op_uses(rv.b, out)
+                op_uses(rv.c, out)
+            elif k == 'unop':
+                op_uses(rv.b, out)
+            elif k == 'cast':
+                op_uses(rv.a, out)
+            elif k in ('discr', 'len'):
+                out.add(rv.a.local)
+                place_uses(rv.a, out)
+            elif k == 'agg':
+                for o in rv.b:
+                    op_uses(o, out)
+            elif k in ('repeat', 'box'):
+                op_uses(rv.a, out)
+
+        # per block: list of (uses, defs) in order
+        info = {}
+        succ = {}
+        for b, blk in fn.blocks.items():
+            if blk.cleanup or blk.term is None:
+                continue
+            steps = []
+            for st in blk.stmts:
+                u, d = set(), set()
+                if st.kind == 'assign':
+                    rv_uses(st.rv, u)
+                    if st.place.proj:
+                        u.add(st.place.local)
+                        place_uses(st.place, u)
+                    else:
+                        d.add(st.place.local)
+                elif st.kind == 'setdiscr':
+                    u.add(st.place.local)
+                elif st.kind == 'assume':
+                    op_uses(st.rv, u)
+                steps.append((u, d))
+            t = blk.term
+            u, d = set(), set()
+            ss = []
+            if t.kind == 'goto':
+                ss = [t.target]
+            elif t.kind == 'switch':
+                op_uses(t.op, u)
+                ss = [x for _, x in t.targets] + ([t.otherwise] if t.otherwise is not None else [])
+            elif t.kind == 'assert':
+                op_uses(t.op, u)
+                ss = [t.target]
+            elif t.kind == 'drop':
+                ss = [t.target]
+            elif t.kind == 'call':
+                for a in t.args:
+                    op_uses(a, u)
+                ft = t.func.strip()
+                if ft.startswith(('move _', 'copy _')):
+                    m = re.match(r'^(?:move|copy) _(\d+)', ft)
+                    if m:
+                        u.add(int(m.group(1)))
+                if t.place.proj:
+                    u.add(t.place.local)
+                    place_uses(t.place, u)
+                else:
+                    d.add(t.place.local)
+                ss = [t.target] if t.target is not None else []
+            elif t.kind == 'return':
+                u.add(0)
+            steps.append((u, d))
+            info[b] = steps
+            succ[b] = [x for x in ss if x in fn.blocks and not fn.blocks[x].cleanup]
+        live_in = dict((b, frozenset()) for b in info)
+        changed = True
+        order = sorted(info.keys(), reverse=True)
+        while changed:
+            changed = False
+            for b in order:
+                live = set()
+                for x in succ[b]:
+                    live |= live_in.get(x, frozenset())
+                for u, d in reversed(info[b]):
+                    live -= d
+                    live |= u
+                fl = frozenset(live)
+                if fl != live_in[b]:
+                    live_in[b] = fl
+                    changed = True
+        at = frozenset(addr_taken)
+        return dict((b, v | at) for b, v in live_in.items())
+
+    def join_hint(self, st, fr):
+        j = self.ipdom(fr.fn, fr.bb)
+        if j is not None:
+            return (fr.fid, j, len(st.frames), len(st.pc))
+        if len(st.frames) >= 2 and fr.on_return is None and fr.ret_bb is not None:
+            return (fr.fid, -1, len(st.frames), len(st.pc))
+        return None
+
+    def ipdom(self, fn, bb):
+        """immediate post-dominator of block bb in fn's CFG (unwind edges ignored); None if it is the exit"""
+        tab = self._ipdom.get(fn.name)
+        if tab is None:
+            tab = self._compute_ipdom(fn)
+            self._ipdom[fn.name] = tab
+        return tab.get(bb)
+
+    def _compute_ipdom(self, fn):
+        parse_body(fn)
+        succ = {}
+        EXIT = -1
+        for b, blk in fn.blocks.items():
+            if blk.cleanup or blk.term is None:
+                continue
+            t = blk.term
+            if t.kind == 'goto':
+                ss = [t.target]
+            elif t.kind == 'switch':
+                ss = [x for _, x in t.targets] + ([t.otherwise] if t.otherwise is not None else [])
+            elif t.kind in ('call', 'drop', 'assert'):
+                ss = [t.target] if t.target is not None else [EXIT]
+            else:
+                ss = [EXIT]
+            ss = [x for x in ss if x == EXIT or (x in fn.blocks and not fn.blocks[x].cleanup)]
+            succ[b] = ss or [EXIT]
+        nodes = list(succ.keys()) + [EXIT]
+        # iterative post-dominator sets (functions here have <= ~1500 blocks; use bitsets via python ints)
+        idx = dict((n, i) for i, n in enumerate(nodes))
+        full = (1 << len(nodes)) - 1
+        pd = dict((n, full) for n in nodes)
+        pd[EXIT] = 1 << idx[EXIT]
+        changed = True
+        order = sorted(succ.keys(), reverse=True)
+        while changed:
+            changed = False
+            for n in order:
+                m = full
+                for x in succ[n]:
+                    m &= pd[x]
+                m |= 1 << idx[n]
+                if m != pd[n]:
+                    pd[n] = m
+                    changed = True
+        tab = {}
+        for n in succ:
+            cands = pd[n] & ~(1 << idx[n])
+            # immediate post-dominator: the strict post-dominator that is post-dominated by all others
+            best = None
+            c = cands
+            while c:
+                low = c & -c
+                i = low.bit_length() - 1
+                c ^= low
+                node = nodes[i]
+                # node is ipdom iff pd[node] == cands (its own pdom set equals all strict pdoms of n)
+                if pd[node] == cands:
+                    best = node
+                    break
+            tab[n] = None if best in (None, EXIT) else best
+        return tab
+
     def finish_frame(self, st, value):
         fr = st.frames.pop()
-        # free the frame's locals (keeps states small)
+        # free the frame's locals (keeps states small and lets equal states compare equal)
+        for n in fr.fn.locals:
+            st.cells.pop((fr.fid, n), None)
         if fr.on_return is not None:
             fr.on_return(self, st, value)
             return
@@ -1142,6 +1516,23 @@ class Executor:
             blk = fr.fn.blocks.get(fr.bb)
             if blk is None:
                 raise Inconclusive('no block bb%d in %s' % (fr.bb, fr.fn.name[-60:]))
+            if fr.idx == 0 and st.stops:
+                sfid, sbb, sdepth, _ = st.stops[-1]
+                if sbb == -1:
+                    # join at the return of frame sfid: its caller (now on top) is about to resume
+                    if len(st.frames) == sdepth - 1:
+                        st.status = 'joined'
+                        return None
+                    if len(st.frames) < sdepth - 1:
+                        st.status = 'escaped'
+                        return None
+                else:
+                    if len(st.frames) == sdepth and fr.fid == sfid and fr.bb == sbb:
+                        st.status = 'joined'
+                        return None
+                    if len(st.frames) < sdepth:
+                        st.status = 'escaped'
+                        return None
             if fr.idx == 0:
                 v = fr.visits.get(fr.bb, 0) + 1
                 fr.visits[fr.bb] = v
@@ -1157,7 +1548,11 @@ class Executor:
             self.stats['steps'] += 1
             if self.stats['steps'] > self.cfg['max_steps'] * 50:
                 raise Inconclusive('step budget exhausted')
-            forks = self.exec_term(st, fr, blk.term)
+            try:
+                forks = self.exec_term(st, fr, blk.term)
+            except Fork as fk:
+                # raised by a model continuation (after a frame returned): alternatives act on the state
+                forks = self.branch(st, [(c, (lambda k: (lambda s: k(s)))(k)) for c, k in fk.alts])
             if forks is not None:
                 return forks
         return None
@@ -1208,6 +1603,10 @@ class Executor:
             apply(st)
             return None
         outs = []
+        if st.frames:
+            f0 = st.frames[-1]
+            k0 = (f0.fn.name[-60:], f0.bb)
+            self.fork_sites[k0] = self.fork_sites.get(k0, 0) + 1
         for i, (c, apply) in enumerate(feas):
             s2 = st.clone() if i < len(feas) - 1 else st
             if c is not None:
@@ -1256,6 +1655,7 @@ class Executor:
                     alts.append((c, go(bb)))
                 if t.otherwise is not None and not self._is_unreachable(fr.fn, t.otherwise):
                     alts.append((z3.Not(z3.Or(*conds)) if conds else None, go(t.otherwise)))
+            self._hint = self.join_hint(st, fr)
             return self.branch(st, alts)
         if k == 'unreachable':
             st.status = 'unreachable'
@@ -1350,7 +1750,10 @@ class Executor:
                     break
         if m is not None:
             try:
-                v = m(self, st, args, dty, canon)
+                try:
+                    v = m(self, st, args, dty, canon)
+                except (AttributeError, TypeError, KeyError, IndexError, z3.Z3Exception) as e:
+                    raise Inconclusive('model for %s failed: %r' % (raw[:120], e))
             except Fork as fk:
                 alts = []
                 for cond, cont in fk.alts:
@@ -1361,6 +1764,7 @@ class Executor:
                                 ret(s, r)
                         return ap
                     alts.append((cond, mk(cont)))
+                self._hint = self.join_hint(st, fr)
                 return self.branch(st, alts)
             if v is PUSHED:
                 # the model pushed a frame (closure call); it returns into dest via on_return/dest
@@ -1401,9 +1805,8 @@ class Executor:
             raise Inconclusive('unknown call %s' % key)
         self.stats['havocs'] += 1
         self.havoc_log[key] = self.havoc_log.get(key, 0) + 1
-        nm = st.fresh('havoc')
+        nm = 'hv!%s:%d:%d' % (fr.fn.text_hash, fr.bb, fr.visits.get(fr.bb, 0))
         st.notes.append(('havoc', key))
-        st.trace.append(Event('havoc', key, tuple(args), nm))
         for a in args:
             if isinstance(a, Ptr) and self._is_mut_ptr_arg(a):
                 pass
